@@ -8,7 +8,7 @@ import time
 from .. import core, tracecheck
 
 MC = """CONSTANTS Losses = {%s}
-Variants = {"plain", "param", "obs"}
+Variants = {"plain", "param", "obs", "both"}
 Modes = {"eager", "jit", "vg"}
 Gens = {%s}
 MaxLen = %d
@@ -83,13 +83,26 @@ def run(tier, seed):
             e = t["ev"][x["ev"] - 1] if 0 < x["ev"] <= len(t["ev"]) else {}
             sig = dict(kind=e.get("kind", ""), loss=e.get("l", ""), variant=e.get("b", ""), mode=e.get("m", ""), gen=e.get("g", ""))
             viol.append(dict(clause=x["clause"], sig=sig, detail=f"event {x['ev']} {e.get('exc', '')}", driver="harness.drv_purity:run_case", cfg=t["sc"], record=t))
+        import copy
+        badt = {x["tid"] for x in rej}
+        st_recs = []
+        base = next((t for k, t in enumerate(slim) if k not in badt and t["ev"] and t["ev"][0]["kind"] == "eval"), None)
+        if base is not None:
+            c = copy.deepcopy(base); c["ev"][0]["after"][1] = 99999
+            st_recs.append((c, "ArgumentMutated", "fingerprint of the parameters changed by an evaluation"))
+        base = next((t for k, t in enumerate(slim) if k not in badt and len(t["ev"]) >= 2 and all(e["kind"] == "draw" for e in t["ev"])
+                     and t["ev"][0]["before"] == t["ev"][1]["before"]), None)
+        if base is not None:
+            c = copy.deepcopy(base); c["ev"][1]["res"] = 99999
+            st_recs.append((c, "DrawNotFunctional", "two draws from the same generator state with different results"))
+        nself = tracecheck.selftest("Trace_Purity", TRACE_CFG, st_recs, sc, "stC20")
         rc, n_new, n_known = core.report("C20", viol)
         nev = sum(len(t["ev"]) for t in out)
         cross = sum(1 for t in out if len({(e["l"], e["b"], e["m"]) for e in t["ev"] if e["kind"] == "eval"}) > len({(e["l"], e["b"]) for e in t["ev"] if e["kind"] == "eval"}))
         cov = dict(states=r_mc.distinct + sum(r.distinct for r in res), transitions=r_mc.generated + sum(r.generated for r in res),
                    traces_validated_against_impl=acc, samples=[core.clip(t, 1500) for t in out[:: max(1, len(out) // 2)][:2]], exhaustive=False,
                    scenarios_emitted_by_tlc=emitted, scenarios_replayed=len(out), events=nev, sequences_mixing_modes_on_same_arguments=cross,
-                   records_rejected=len(rej), known_finding_hits=n_known,
+                   records_rejected=len(rej), known_finding_hits=n_known, binding_selftests_rejected=nself,
                    rule="MC: Purity.tla all call orders (length <= 3) over losses x batch variants x modes x generator states, ArgsUnchanged; "
                         "witness Impure=TRUE must violate it; replay: for each loss (ODE, stationary, non-stationary, ODE system, stationary and "
                         "non-stationary PDE systems, tanh MLP) all orders of length L over {plain, parameter batch, observation batch} x "
